@@ -15,6 +15,7 @@ mod cl;
 mod c11;
 mod c02;
 mod c03;
+mod c09;
 
 use util::Ctx;
 
@@ -51,6 +52,7 @@ fn main() {
         ("gen", "C11") => c11::gen(&mut ctx),
         ("gen", "C02") => c02::gen(&mut ctx),
         ("gen", "C03") => c03::gen(&mut ctx),
+        ("gen", "C09") => c09::gen(&mut ctx),
         _ => { eprintln!("unknown command"); std::process::exit(2); }
     }
     ctx.finish(stats.as_deref());
